@@ -2,8 +2,8 @@
    Gen/XyzElements.v, Gen/Units.v (tie T) and Gen/ScaleExpr.v (tie S) are regenerated from /repo on every run,
    so the table obligations below are re-decided against the current code. *)
 From Coq Require Import List Bool ZArith NArith QArith String Reals Qreals.
-From Molli Require Import Common.ParseStr Model.Parse Model.XyzText Model.XyzEdit Model.XyzSize Proofs.Parse Proofs.XyzText Proofs.XyzEdit
-                          Proofs.XyzSize.
+From Molli Require Import Common.ParseStr Model.Parse Model.XyzText Model.XyzEdit Model.XyzSize Model.XyzView Proofs.Parse Proofs.XyzText
+                          Proofs.XyzEdit Proofs.XyzSize Proofs.XyzView.
 From Molli Require Import Gen.XyzElements Gen.Units Gen.ScaleExpr.
 Import ListNotations.
 Local Open Scope list_scope.
@@ -192,3 +192,39 @@ Proof. vm_compute. reflexivity. Qed.
 Theorem C08_surplus_records_refuted : forall fuel cm rs r rest, parse_int r = None ->
   text_frames (S fuel) (print_N (N.of_nat (List.length rs)) :: cm :: rs ++ r :: rest) = None.
 Proof. exact text_frames_surplus. Qed.
+
+(* VIEWS.  A written geometry need not own its atoms: a Substructure is a selection of a parent's atoms (a molecule, a
+   structure, a conformer) in the order in which they were selected -- any order, an index possibly twice.  Every write
+   of a view session (writes of the view and of the parent, edits of the parent's rows and elements, assignments
+   through the view) reads back as the selection, in selection order, of the state the parent has at that moment ... *)
+Theorem C08_view_session : forall vname sel steps g,
+  Forall2 (fun out exp => forall ls, out = Some ls -> exists ms, exp = Some ms /\ load_xyz names ls = Ok ms)
+          (run_view syms vname sel g steps) (view_expect vname sel g steps).
+Proof. exact (xyz_view_session_roundtrip names syms C08_vocabulary). Qed.
+Print Assumptions C08_view_session.
+(* ... in particular atom j of what is read back is the parent's atom sel_j: its element and ITS OWN coordinate row *)
+Theorem C08_view_order : forall vname sel g ls, write_view syms vname sel g = Some ls ->
+  exists m, load_xyz names ls = Ok [m] /\ m_natoms m = Z.of_nat (List.length sel) /\
+            List.length (m_elems m) = List.length sel /\ List.length (m_coords m) = List.length sel /\
+            forall j i, nth_error sel j = Some i ->
+              exists a, nth_error (wg_atoms g) i = Some a /\ nth_error (m_elems m) j = Some (wa_elem a) /\
+                        nth_error (m_coords m) j = Some (dec_val (wa_x a), dec_val (wa_y a), dec_val (wa_z a)).
+Proof. intros vname sel g ls. apply (xyz_view_order names syms). exact C08_vocabulary. Qed.
+Print Assumptions C08_view_order.
+Example C08_view_nonvacuous :
+  let g := mk_wgeom (s2l "p") [mk_watom 6 (false, 0%N) (false, 0%N) (false, 0%N); mk_watom 8 (false, 1210000%N) (false, 0%N) (false, 0%N);
+                               mk_watom 7 (true, 700000%N) (false, 1150000%N) (false, 0%N); mk_watom 1 (true, 5%N) (true, 6%N) (false, 7%N)] in
+  match run_view syms (s2l "v") [3; 1; 1; 0]%nat g [VWriteView; VEdit (VAssign [((false, 1%N), (false, 2%N), (false, 3%N))]); VWriteView; VWriteParent] with
+  | [Some a; Some b; Some c] =>
+    (List.length a =? 6)%nat && (List.length c =? 6)%nat && str_eqb (firstn 1 (nth 2 a [])) (s2l "H") && str_eqb (firstn 1 (nth 3 a [])) (s2l "O") &&
+    str_eqb (nth 3 a []) (nth 4 a []) && negb (str_eqb (nth 2 a []) (nth 2 b [])) && str_eqb (nth 2 b []) (nth 5 c [])
+  | _ => false
+  end = true.
+Proof. vm_compute. reflexivity. Qed.
+(* the rows taken in the PARENT's order (a membership mask, a sorted index list) under atoms kept in selection order:
+   same elements, other atoms' coordinates, as soon as the selection is not ascending (and nothing to see when it is) *)
+Theorem C08_view_parent_order_refuted :
+  exists v w, view_geom [] [2; 0]%nat refute_parent = Some v /\ masked_geom [] [2; 0]%nat refute_parent = Some w /\
+              m_elems (geom_mol v) = m_elems (geom_mol w) /\ m_coords (geom_mol v) <> m_coords (geom_mol w) /\
+              view_geom [] [0; 2]%nat refute_parent = masked_geom [] [0; 2]%nat refute_parent.
+Proof. exact view_parent_order_refuted. Qed.
